@@ -129,6 +129,11 @@ DnTypes == {"2.5.4.6", "2.5.4.7", "2.5.4.8", "2.5.4.10", "2.5.4.11", "2.5.4.3", 
 DnCases == { Case("dn", [Base EXCEPT !.dn = <<E(ty, kind, "$v")>>], self, "ed25519", "ed25519", Kid("sha256"), "keypair") :
                ty \in DnTypes, kind \in DnKinds, self \in Bool }
            \cup { Case("dn", [Base EXCEPT !.dn = DnMulti], self, "ed25519", "ed25519", Kid("sha256"), "keypair") : self \in Bool }
+           (* empty values: alone, and between two other attributes *)
+           \cup { Case("dn", [Base EXCEPT !.dn = <<E(ty, kind, "")>>], TRUE, "ed25519", "ed25519", Kid("sha256"), "keypair") :
+                    ty \in {"2.5.4.3", "2.5.4.10"}, kind \in DnKinds }
+           \cup { Case("dn", [Base EXCEPT !.dn = <<E("2.5.4.6", "printable", "$c"), E("2.5.4.10", kind, ""), E("2.5.4.3", "utf8", "$v")>>], self,
+                         "ed25519", "ed25519", Kid("sha256"), "keypair") : kind \in DnKinds, self \in Bool }
 
 KidMethods == {Kid("sha256"), Kid("sha384"), Kid("sha512"), KidPre(<<1, 2, 3, 4>>), KidPre(<<>>)}
 KidCases == { Case("kid", [Base EXCEPT !.isCa = ca, !.aki = TRUE, !.kid = ks], self, "ed25519", "ed25519", ki, "keypair") :
